@@ -145,8 +145,91 @@ class Policy:
             return {'windows': self.windows, 'stalls': self.stalls, 'still_held': sorted(self.held)}
 
 
+class ScenarioPolicy:
+    """Withholds ONE prompt of a chosen unit (the victim) at a chosen kind of trace event ('call' after `step`,
+    'return', 'exception', 'line') and requires that every unit that does not wait for the victim (not an ancestor,
+    not a descendant) -- already running or started only afterwards -- runs to its end meanwhile."""
+
+    def __init__(self, args):
+        sc = args['scenario']
+        self.rng = random.Random(args.get('seed', 0))
+        self.units = {int(k): v for k, v in sc['units'].items()}        # line -> unit
+        self.victim = sc['victim']
+        self.kind = sc['kind']
+        self.expected = set(sc['expected'])                               # units that must finish while the victim is held
+        self.need_started = set(sc.get('need_started', []))              # units only the victim can start: must be running already
+        self.stall_after = args.get('stall_after', 1.5)
+        self.lock = threading.RLock()
+        self.put = None
+        self.unit_of_trace = {}
+        self.ended_units = set()
+        self.held = None            # dict(t, p, t0, event)
+        self.done = False
+        self.windows, self.stalls = [], []
+        self.seen = {'prompts_meanwhile': 0, 'starts_meanwhile': 0}
+        self.last_event = time.monotonic()
+        self.stop = False
+        threading.Thread(target=self._pump, daemon=True).start()
+
+    def _release(self, stalled):
+        h = self.held
+        self.held, self.done = None, True
+        self.windows.append({'victim': h['t'], 'prompt': h['p'], 'event': h['event'], 'stalled': stalled,
+                             'opened_meanwhile': self.seen['prompts_meanwhile'], 'closed_meanwhile': self.seen['prompts_meanwhile'],
+                             'traces_started_meanwhile': self.seen['starts_meanwhile'],
+                             'others_live': sorted(self.expected), 'held_s': round(time.monotonic() - h['t0'], 3)})
+        self.put(h['t'], h['p'], 'step')
+
+    def on_event(self, ev, put):
+        with self.lock:
+            self.put = put
+            self.last_event = time.monotonic()
+            ty = ev['type']
+            if ty == 'OnStartTrace' and self.held:
+                self.seen['starts_meanwhile'] += 1
+            elif ty == 'OnEndTrace':
+                u = self.unit_of_trace.get(ev['trace_no'])
+                if u:
+                    self.ended_units.add(u)
+                if self.held and self.expected <= self.ended_units:
+                    self._release(False)
+            elif ty == 'OnStartPrompt':
+                t, p = ev['trace_no'], ev['prompt_no']
+                if t not in self.unit_of_trace:
+                    u = self.units.get(ev.get('line_no')) or self.units.get((ev.get('line_no') or 0) + 1)
+                    self.unit_of_trace[t] = 'M' if t == 1 else u
+                u = self.unit_of_trace.get(t)
+                if u == self.victim:
+                    if not self.done and self.held is None and ev.get('event') == self.kind and not (self.expected <= self.ended_units) \
+                            and self.need_started <= set(self.unit_of_trace.values()):
+                        self.held = {'t': t, 'p': p, 't0': time.monotonic(), 'event': ev.get('event')}
+                    else:
+                        put(t, p, 'step')
+                else:
+                    if self.held:
+                        self.seen['prompts_meanwhile'] += 1
+                    put(t, p, self.rng.choice(['next', 'step']))
+
+    def _pump(self):
+        while not self.stop:
+            time.sleep(0.005)
+            with self.lock:
+                if self.held and time.monotonic() - self.last_event > self.stall_after:
+                    h = self.held
+                    self.stalls.append({'victim': h['t'], 'victim_prompt': h['p'], 'event': h['event'],
+                                        'not_finished': sorted(self.expected - self.ended_units),
+                                        'waited_s': round(time.monotonic() - self.last_event, 2)})
+                    self._release(True)
+
+    def summary(self):
+        self.stop = True
+        with self.lock:
+            return {'windows': self.windows, 'stalls': self.stalls, 'still_held': [self.held['t']] if self.held else [],
+                    'scenario': {'victim': self.victim, 'kind': self.kind}}
+
+
 def make_policy(args):
-    return Policy(args)
+    return ScenarioPolicy(args) if 'scenario' in args else Policy(args)
 
 
 # ---------------------------------------------------------------- program generator
@@ -251,6 +334,51 @@ def gen_program(rng, max_threads, max_tasks):
     for ln in range(start, len(lines) + 1):
         unit_of_line[ln] = 'M'
     return '\n'.join(lines) + '\n', unit_of_line, g.nthreads, g.ntasks
+
+
+def gen_scenario_job(rng):
+    """Fixed shape, random details: main starts w1 and w3; w1 later starts w2; every unit calls traced helper functions
+    (plain, raising).  One unit is the victim: it is stepped with `step` and its first prompt at the chosen kind of event
+    ('call' = the `--Call--` stop after `step`, 'return', 'exception', 'line') is withheld."""
+    L = ['import sys, threading', 'from harness.props.c06 import P',
+         f'sys.setswitchinterval({rng.choice([1e-6, 1e-4, 5e-3])})',
+         'def g(n):', '    return n + 1',
+         'def boom():', "    raise ValueError('boom')",
+         'def f():', "    return 'f'"]
+    units = {}
+
+    def unit(tag, body):
+        L.append(f'def {tag}():')
+        for b in body:
+            L.append('    ' + b)
+            units[len(L)] = tag
+
+    def calls(n):
+        out = []
+        for i in range(n):
+            r = rng.random()
+            out += ['try:', '    boom()', 'except ValueError:', '    pass'] if r < 0.3 else [f'g({i})'] if r < 0.8 else ['f()']
+        return out
+
+    unit('w2', ["P('w2')"] + calls(rng.randint(2, 4)) + ["P('w2')"])
+    unit('w1', ["P('w1')"] + calls(rng.randint(1, 2)) + ['th2 = threading.Thread(target=w2)', 'th2.start()']
+         + calls(rng.randint(1, 3)) + ['th2.join()', "P('w1')"])
+    unit('w3', ["P('w3')"] + calls(rng.randint(2, 5)) + ["P('w3')"])
+    start = len(L) + 1
+    L += ["P('M')", 'th1 = threading.Thread(target=w1)', 'th3 = threading.Thread(target=w3)', 'th1.start()', 'th3.start()']
+    L += calls(rng.randint(1, 3)) + ['th1.join()', 'th3.join()', "P('M')"]
+    for ln in range(start, len(L) + 1):
+        units[ln] = 'M'
+    # try/except bodies of the main part are module-level lines as well (already covered by the range above)
+    victim = rng.choice(['M', 'M', 'w3', 'w1', 'w2'])
+    expected = {'M': ['w1', 'w2', 'w3'], 'w3': ['w1', 'w2'], 'w1': ['w3'], 'w2': ['w3']}[victim]
+    kind = rng.choice(['call', 'call', 'call', 'return', 'exception', 'line'])
+    args = {'seed': rng.randrange(1 << 30),
+            'scenario': {'units': {str(k): v for k, v in units.items()}, 'victim': victim, 'kind': kind, 'expected': expected,
+                         'need_started': ['w1', 'w3'] if victim == 'M' else []}}
+    return {'src': '\n'.join(L) + '\n', 'form': 'str', 'trace_threads': True, 'trace_modules': False, 'timeout': 20,
+            'units': {str(k): v for k, v in units.items()}, 'nthreads': 3, 'ntasks': 0,
+            'policy': {'kind': 'custom', 'module': 'harness.props.c06', 'func': 'make_policy', 'args': args}}
 
 
 def gen_job(rng, max_threads, max_tasks):
@@ -422,6 +550,12 @@ def oracle(job, res):
     # independence
     summ = res.get('policy_summary') or {}
     for s in summ.get('stalls', []):
+        if 'not_finished' in s:
+            bad.append(('blocked-by-unanswered-prompt',
+                        f'while prompt {s["victim_prompt"]} of trace {s["victim"]} (stopped at a {s["event"]!r} event) was left unanswered, '
+                        f'the units {s["not_finished"]}, which never wait for that trace, stopped making progress: '
+                        f'no event for {s["waited_s"]} s although every prompt of theirs had been answered'))
+            continue
         bad.append(('blocked-by-unanswered-prompt',
                     f'while prompt {s["victim_prompt"]} of trace {s["victim"]} was left unanswered, trace {s["blocked_trace"]} did not '
                     f'proceed for {s["waited_s"]} s after its prompt {s["blocked_prompt"]} had been answered'))
@@ -537,6 +671,13 @@ def _run(ctx, jobs) -> Corr:
                              'windows': (res.get('policy_summary') or {}).get('windows', [])[:5]})
     corr.extra.update(hist)
     corr.extra['withholding_windows'] = n_windows
+    sc = {}
+    for job, res in kept:
+        for w in (res.get('policy_summary') or {}).get('windows', []):
+            if 'event' in w:
+                k = f"{w['event']}:{'stalled' if w['stalled'] else 'others-finished'}"
+                sc[k] = sc.get(k, 0) + 1
+    corr.extra['scenario_windows_by_event_of_the_withheld_prompt'] = sc
     corr.extra['windows_with_progress_of_other_traces'] = n_progress
     corr.extra['prompts_of_other_traces_closed_while_a_prompt_was_withheld'] = closed_meanwhile
     return corr
@@ -545,7 +686,8 @@ def _run(ctx, jobs) -> Corr:
 def correspond(ctx) -> Corr:
     rng = ctx.rng
     n, nth, ntk = (90, 4, 6) if ctx.tier == 'quick' else (3000, 6, 10)
-    jobs = load_corpus() + [gen_job(rng, nth, ntk) for _ in range(n)]
+    nsc = 30 if ctx.tier == 'quick' else 600
+    jobs = load_corpus() + [gen_scenario_job(rng) for _ in range(nsc)] + [gen_job(rng, nth, ntk) for _ in range(n)]
     return _run(ctx, jobs)
 
 
